@@ -51,6 +51,44 @@ class C14Episode(Episode):
             self.run_stop(c)
         elif c['kind'] == 'signal':
             self.run_signal(c)
+        elif c['kind'] == 'pair':
+            self.run_pair(c)
+
+    # ---------------------------------------------------------------- pair
+    def run_pair(self, c):
+        """two watchers of one daemon with the same hook and different
+        ignore-failure flags: each one's flag is its own"""
+        w = self.world
+        for wc in self.cfg['watchers']:
+            w.call('start', {'name': wc['name']}, waiting=True)
+        ok = w.settle(extra_checks=1)
+        if self.stopped() or not ok:
+            return
+        k = w.kernel
+        for i, wc in enumerate(self.cfg['watchers']):
+            (hook, (o, f)), = c['pair'][i].items()
+            good = effective(o, f, hook)
+            st = self.ask('status', {'name': wc['name']})
+            status = st.get('status') if isinstance(st, dict) else None
+            live = [p.pid for p in k.live_by_marker(self.marker(i))]
+            np_ = wc['opts']['numprocesses']
+            self.probes['pair_watchers_checked'] += 1
+            if good and (status != 'active' or len(live) != np_):
+                self.viol('start_did_not_complete',
+                          '[%s: %s=%s%s, beside a watcher with the other '
+                          'flag] no gate fails: status=%r, %d live of %d'
+                          % (wc['name'], hook, o, '+ign' if f else '',
+                             status, len(live), np_), once=('pair', i))
+            if not good and (status != 'stopped' or live):
+                self.viol('aborted_start_not_stopped',
+                          '[%s: %s=%s%s, beside a watcher with the other '
+                          'flag] %s must abort the start: status=%r, live '
+                          'workers %s' % (wc['name'], hook, o,
+                                          '+ign' if f else '', hook, status,
+                                          live), once=('pair', i),
+                          gate=hook, beh='obedient',
+                          what='alive' if live else 'status')
+        self.check_events()
 
     # --------------------------------------------------------------- start
     def run_start(self, c):
@@ -277,7 +315,8 @@ class C14(Prop):
             'before_stop/after_stop assignments under stop and restart; '
             'before_signal/after_signal under signal (several signals incl. '
             'SIGKILL), kill and stop, the latter two also with stop_children; '
-            'hooks that answer None (no verdict: false); '
+            'hooks that answer None (no verdict: false); two watchers of one '
+            'daemon with the same raising hook and different flags; '
             'every start hook replaced at run time by '
             'a set request (6 old x 6 new outcome / flag pairs); judged against a reference model of '
             'the documented gating. random part: per-call varying hook '
@@ -320,6 +359,15 @@ class C14(Prop):
                         'hooks': {hook: (out, INI_FLAGS[flag])},
                         'ini_flags': {hook: flag}, 'beh': 'obedient',
                         'np': 2, 'trigger': 'start'}})
+        # two watchers in one daemon, the same hook raising in both, the
+        # ignore-failure flag set for one of them only (both orders)
+        for hook in START_HOOKS:
+            for first in (True, False):
+                cases.append({'c14': {
+                    'kind': 'pair', 'np': 1, 'beh': 'obedient',
+                    'hooks': {hook: ('raise', first)},
+                    'pair': [{hook: ('raise', first)},
+                             {hook: ('raise', not first)}]}})
         # a hook that answers nothing (no return statement): that is not
         # "true", whatever the ignore-failure flag says (it is about
         # exceptions)
@@ -387,6 +435,7 @@ class C14(Prop):
                      c['c14'].get('np') == 0 or c['c14'].get('ini') or
                      c['c14'].get('stop_children') or
                      c['c14'].get('none') or
+                     c['c14'].get('kind') == 'pair' or
                      (c['c14'].get('rehook') and list(
                          c['c14']['rehook'].values())[0][0] == 'raise')]
         return cases
@@ -410,6 +459,16 @@ class C14(Prop):
                     for h, (o, f) in hooks.items())
                 cfg['from_ini'] = True
                 cfg['warmup_delay'] = 0
+        elif c['kind'] == 'pair':
+            hooks = dict((k, tuple(v)) for k, v in c['hooks'].items())
+            c['pair'] = [dict((k, tuple(v)) for k, v in d.items())
+                         for d in c['pair']]
+            cfg = _cfg(seed, c['np'], c['beh'], c['pair'][0], False)
+            second = _cfg(seed, c['np'], c['beh'], c['pair'][1],
+                          False)['watchers'][0]
+            second['name'] = 'hk2'
+            second['marker'] = 'm1'
+            cfg['watchers'].append(second)
         else:
             hooks = dict((k, tuple(v)) for k, v in c['hooks'].items())
             cfg = _cfg(seed, c['np'], c['beh'], hooks, True)
